@@ -230,8 +230,20 @@ class Ledger:
                     reps = self.reports.get((n, c, a), [])
                     fin = sum(1 for l, t, dy, inc in reps if l in (b"K", b"D") or (l == b"Z" and dy is not False))
                     if dn > fin:
-                        res.v("C03", "message %d recipient %r marked done %d times but only %d K/D reports were given (reports: %r)" % (
-                            n, a, dn, fin, [(l, dy) for l, t, dy, inc in reps]))
+                        msg = "message %d recipient %r marked done %d times but only %d K/D reports were given (reports: %r)" % (
+                            n, a, dn, fin, [(l, dy) for l, t, dy, inc in reps])
+                        res.v("C03", msg)
+                        if any(l == b"Z" and dy is False for l, t, dy, inc in reps):
+                            res.v("C15", "temporary failure treated as permanent although the message is younger than queuelifetime: " + msg)
+                # converse (fault- and crash-free histories): every final report is reflected by a mark before the daemon blocks again
+                if not self.fault_or_crash and not self.disorder:
+                    for a in set(x for mk, x in recs[c]):
+                        reps = self.reports.get((n, c, a), [])
+                        sure = sum(1 for l, t, dy, inc in reps if l in (b"K", b"D") or (l == b"Z" and dy is True))
+                        if dcount.get(a, 0) < sure:
+                            zd = any(l == b"Z" and dy is True for l, t, dy, inc in reps)
+                            res.v("C15" if zd else "C04", "message %d recipient %r: %d final reports (K, D, or Z in a pass started after birth+queuelifetime) but only %d records marked done%s (reports %r)" % (
+                                n, a, sure, dcount.get(a, 0), ": an expired message keeps being retried" if zd else ": a finished recipient stays scheduled", [(l, dy) for l, t, dy, inc in reps]))
                 # C04: outstanding attempts never exceed unmarked records
                 for a in set(list(dcount) + list(tcount)):
                     outn = sum(1 for cm in w.outstanding if cm.n == n and cm.chan == c and cm.recip == a)
